@@ -120,7 +120,7 @@ PLAN = {
         assumptions=["ticks are delivered (never skipped) at phase + n*interval of the virtual clock"],
     ),
     "C06": dict(
-        stages=[ho("C06", q=60), pairs(), ls("C06"), ga(), tsan("hostile")],
+        stages=[ho("C06", q=60), ho("C06", q=24, t=240, shards_q=2, shards_t=8, flavors="tokio-mt,tokio-ct,seeded"), pairs(), ls("C06"), ga(), tsan("hostile")],
         rule=GA + " || " + HO + SAN + "; histories in which a call returned Err are excluded (the statement's exemption) and counted",
         clauses=["keys(store) == keys(policy) at the quiescent end", "len() == number of resident entries", "same invariant after every lockstep step"],
         minimum=dict(quick=dict(ho_c06_evaluations=60, ho_evictions_and_expiries=2000, ls_histories=200)),
